@@ -116,8 +116,10 @@ def splitScript (ts : List String) : List (List String) :=
 partial def parseWOp (ts : List String) : Option WOp :=
   -- `gget` / `ggetmut` / `gins` / `grem`: the same operations through the generic storage traits — same model ops
   let ts := match ts with
-    | h :: rest => if ["gget", "ggetmut", "gins", "grem", "lget", "lgetmut"].contains h then (h.drop 1).toString :: rest
-                   else if h == "ldrain2" then "rem" :: rest else ts
+    | h :: rest => if ["gget", "ggetmut", "gins", "grem", "lget", "lgetmut", "pejoin"].contains h then (h.drop 1).toString :: rest
+                   else if h == "lazy_create_nobuild" then "lazy_create" :: rest
+                   else if h == "ldrain2" then "rem" :: rest
+                   else if h == "lentry2" then "entry_or" :: rest ++ ["0"] else ts
     | [] => ts
   match ts with
   | ["reg", k, p] => do
